@@ -21,7 +21,7 @@ from .. import api
 
 OPS = ["size", "count", "sum", "mean", "min", "max", "first", "last", "cummin", "cummax", "cumsum", "shift", "rolling_max", "rolling_min", "t_max"]
 SELECTION = {"min", "max", "first", "last", "cummin", "cummax", "shift", "rolling_max", "rolling_min", "t_max"}
-VDT = ["float64", "float32", "int64", "int32", "int8", "uint8", "bool", "m8[ns]", "m8[us]", "m8[s]", "M8[ns]", "M8[us]", "M8[s]", "M8[ns,UTC]", "M8[us,US/Eastern]"]
+VDT = ["float64", "float32", "int64", "int32", "int16", "int8", "uint64", "uint32", "uint16", "uint8", "bool", "m8[ns]", "m8[us]", "m8[s]", "M8[ns]", "M8[us]", "M8[s]", "M8[ns,UTC]", "M8[us,US/Eastern]"]
 KEY_CONT = ["numpy", "pandas", "index", "polars", "arrow", "arrow_chunked", "pandas_arrow", "arrow_dict_chunked"]
 VAL_CONT = ["numpy", "pandas", "pandas_arrow", "polars", "arrow", "arrow_chunked"]
 
@@ -41,6 +41,15 @@ def gen_case(rng, tier):
         raw = [rng.choice([1.0, 2.0, -3.0, 0.5, 7.0]) for _ in range(n)]
     elif base in ("int64",):
         raw = [rng.choice([1, 2, -3, 2**53 + 1, 2**62, -2**62, 7]) for _ in range(n)]
+    elif base == "uint64":
+        # the upper half of the unsigned range has no int64 counterpart: nothing may detour through int64
+        raw = [rng.choice([1, 2, 7, 2**53 + 1, 2**63 + 1, 2**63 + 7, 2**63, 2**64 - 1]) for _ in range(n)]
+    elif base == "uint32":
+        raw = [rng.choice([1, 2, 7, 2**31, 2**32 - 1, 100]) for _ in range(n)]
+    elif base == "int16":
+        raw = [rng.choice([1, 2, -3, 2**15 - 1, -2**15, 100]) for _ in range(n)]
+    elif base == "uint16":
+        raw = [rng.choice([1, 2, 7, 2**15, 2**16 - 1, 100]) for _ in range(n)]
     elif base == "int32":
         raw = [rng.choice([1, 2, -3, 2**31 - 1, 2**30]) for _ in range(n)]
     elif base == "int8":
@@ -69,6 +78,13 @@ def gen_case(rng, tier):
             raw = [rng.choice([1, 2, 7, 2**53 + 1]) for _ in range(n)]
             i, j = rng.sample([k for k in range(n) if col[k] == g], 2)
             raw[i] = raw[j] = -2**62
+    if op in ("sum", "cumsum", "mean") and base == "uint64":
+        # unsigned sums: keep every sub-sum below 2**64
+        tot = 0
+        for i, v in enumerate(raw):
+            if tot + v > 2**64 - 1:
+                raw[i] = v = 1
+            tot += v
     if op in ("sum", "cumsum", "mean") and base in ("int64", "m8"):
         # the property speaks of sums within the 64-bit range: keep every sub-sum (any group, any prefix) representable
         # - as int64 for integers, as nanoseconds for durations (the canonical form the results are compared in)
@@ -161,8 +177,8 @@ def dtype_ok(out, c, cont):
     s = str(dt)
     if base in ("float64", "float32"):
         return (base in s) or ("double" in s and base == "float64") or ("float" in s and base == "float32" and "64" not in s), s
-    if base in ("int64", "int32", "int8", "uint8"):
-        return (base in s), s
+    if base in ("int64", "int32", "int16", "int8", "uint64", "uint32", "uint16", "uint8"):
+        return (s.replace("[pyarrow]", "").lower() == base), s
     if base == "bool":
         return ("bool" in s), s
     unit = vdt.split("[")[1].rstrip("]").split(",")[0]
@@ -230,7 +246,7 @@ def run_case(GroupBy, c):
             vals = [x for x, k in zip(vals, c["col"]) if k is not None]
         if c["vdt"] != "float32" and any(x not in inputs for x in vals):
             viol.append(dict(sig={**sig, "what": "not-an-input-value"}, what=f"{op} returned a value that is not an element of the input", observed=str(vals)[:300], expected=str(sorted(inputs, key=str))[:300]))
-    if op in ("sum", "cumsum") and c["vdt"] in ("int64", "int32", "int8", "uint8", "bool"):
+    if op in ("sum", "cumsum") and c["vdt"] in ("int64", "int32", "int16", "int8", "uint64", "uint32", "uint16", "uint8", "bool"):
         # exact integer sums within 64 bits
         codes, labels = api.logical_codes([c["col"]])
         if op == "sum":
@@ -239,7 +255,7 @@ def run_case(GroupBy, c):
                 if k >= 0:
                     want[labels[k][0]] = want.get(labels[k][0], 0) + int(c["raw"][i])
             wl = [(k, want[k]) for k in sorted(want)]
-            if all(abs(v) < 2**63 for _, v in wl) and [(a, int(b)) if b is not None else (a, b) for a, b in got] != wl:
+            if all((abs(v) < 2**63 or (c["vdt"] == "uint64" and 0 <= v < 2**64)) for _, v in wl) and [(a, int(b)) if b is not None else (a, b) for a, b in got] != wl:
                 viol.append(dict(sig={**sig, "what": "integer-sum"}, what="integer sum is not exact within the 64-bit range", observed=str(got), expected=str(wl)))
     return viol
 
